@@ -224,6 +224,19 @@ fn released(task: u64, lock: &'static str, mode: char) {
     });
 }
 
+/// A task starts / stops waiting for a response that only the main loop can deliver
+/// (`ClientProxy::send_request`). Traced like a mutex named `main`, so that "awaits the client while
+/// holding a lock" shows up in the mined lock programs.
+pub fn client_wait_begin() {
+    let task = current_task();
+    with_state(|s| emit(s, task, "req", "main", 'M'));
+}
+
+pub fn client_wait_end() {
+    let task = current_task();
+    with_state(|s| emit(s, task, "rel", "main", 'M'));
+}
+
 fn lock_name<T: ?Sized>() -> &'static str {
     let n = std::any::type_name::<T>();
     if n.ends_with("EmmyLuaAnalysis") {
